@@ -154,35 +154,8 @@ def run(ctx, report):
         R2.violation('get_im_fmt:history', 'get_im_fmt:history:%s' % k[3], 'get_im_fmt(se=%s, w8=%s, mode=%s, %s) gives %s on a fresh table object and %s after other questions were asked of the same '
                      'object: the signedness / width of an immediate or relative displacement depends on what was decoded before' % (k[0], k[1], k[2], k[3], fresh, got), where(arch, gif),
                      witness="dis('b001') then dis('ebfe').getdstflow()")
-    # _dis: narrowing of s32 under 16-bit operand size
     dis = arch.method('x86_mn', '_dis')
-    found = None
-    for n in ast.walk(dis):
-        if isinstance(n, ast.If):
-            body_txt = ' ; '.join(u(s) for s in n.body)
-            if 'dib = s16' in body_txt and 'dib == s32' in body_txt and isinstance(n.test, ast.Compare):
-                found = n
-    if found is None:
-        R2.violation('_dis:s32->s16', '_dis:s32->s16:missing', 'the decoder never narrows a 32-bit relative displacement under 16-bit operand size',
-                     where(arch, dis))
-    else:
-        t = u(found.test)
-        if t in ('self.opmode != u32', 'self.opmode == u16', 'self.opmode != x86_afs.u32', 'self.opmode == x86_afs.u16'):
-            R2.ok('_dis:s32->s16', sample='_dis narrows s32->s16 when %s' % t)
-        else:
-            R2.violation('_dis:s32->s16', '_dis:s32->s16:' + t,
-                         'the width of a Jz displacement (call E8, jcc 0F 8x) is selected by `%s`; the architecture selects it by the OPERAND size '
-                         '(prefix 66), not the address size' % t, where(arch, found),
-                         witness='dis(66 e8 00 01 00 00).l == 6 (architecture: 4); dis(67 e8 00 01 00 00).l == 4 (architecture: 6)')
-    # ims read with operand size and sign flag
-    ims_ok = False
-    for n in ast.walk(dis):
-        if isinstance(n, ast.Call) and u(n.func) == 'x86mndb.get_im_fmt' and len(n.args) == 3 and u(n.args[1]) == 'self.opmode':
-            ims_ok = True
-    if ims_ok:
-        R2.ok('_dis:ims', sample='_dis reads imm/ims with get_im_fmt(m.modifs, self.opmode, dib)')
-    else:
-        R2.violation('_dis:ims', '_dis:ims:mode', 'imm/ims immediates are not sized by the operand size', where(arch, dis))
+    # the narrowing of s32 under the 16-bit operand size and the reading of imm / ims are decided by evaluation: C17.D5 (bytes by mode) and C17.D8 (value, sign, width)
 
     R3 = report.rule('C17.D3', 'address arithmetic and attribute accessors by def-use', floor=6)
     fn = arch.method('x86_mn', 'getnextflow')
@@ -289,6 +262,12 @@ def run(ctx, report):
     R7 = report.rule('C17.D7', 'every store of a segment override into a decoded operand is guarded so that it reaches memory operands only (guards evaluated on the register, immediate and memory '
                      'operand kinds): a branch with a 2e/3e hint prefix keeps an immediate operand that is_imm still recognises, so its destination is still reported', floor=3)
     segm_guard_rule(ctx, R7, M)
+
+    # ---------------------------------------------------------------- D8 the displacement as the decoder reads it
+    R8 = report.rule('C17.D8', 'the operand loop of _dis evaluated on every immediate kind x (w8, se) of the live cells x operand size x boundary byte patterns: bytes consumed, width and '
+                     'value (sign- or zero-extended) of the immediate are the architectural ones, so a relative displacement reaches getdstflow with its sign (shared with C01.D14)', floor=18)
+    from ..immdecode import imm_decode_rule
+    imm_decode_rule(ctx, R8, M, 'C17')
 
 
 def segm_guard_rule(ctx, R, M):
